@@ -216,6 +216,81 @@ impl Property for C10Prop {
         law!(tri!(matches(&meet, &a), "matches"), "meet-lower-bound", "conjoin({ta}, {tb}) = {hm} does not match {ta}");
         law!(tri!(matches(&meet, &b), "matches"), "meet-lower-bound", "conjoin({ta}, {tb}) = {hm} does not match {tb}");
         let _ = hc;
+        // 9. a type value with a history is the type it denotes: a union that was asked every public
+        //    question (printed, compared, its parameter / result / element / field types derived) and
+        //    then widened with `|` or `|=` answers every question with a type equivalent to the answer of
+        //    the same union built in one go (`|=` may absorb members that lie below others, so answers
+        //    are compared up to mutual `matches`, not by structure)
+        stats.evals(3);
+        type Answers = Vec<(&'static str, Option<Type>)>;
+        let questions = |t: &Type| -> Result<Answers, String> {
+            run::guarded(|| {
+                let mut out: Answers = vec![
+                    ("its printed text read back", Type::from_str(&t.to_string()).ok()),
+                    ("result type", t.return_type()),
+                    ("element type", t.element_type()),
+                    ("index result", t.index_result()),
+                    ("cell content type", t.mut_element_type()),
+                    ("iterator element type", t.iter_element()),
+                    ("component 0", t.tuple_element_at(0)),
+                    ("component 1", t.tuple_element_at(1)),
+                    ("field a", t.field_type("a")),
+                    ("field f", t.field_type("f")),
+                    ("itself", Some(t.clone())),
+                ];
+                match t.params() {
+                    Some(ps) => {
+                        for (k, p) in ps.iter().enumerate().take(3) {
+                            out.push((["parameter 0", "parameter 1", "parameter 2"][k], Some(p.clone())));
+                        }
+                        out.push(("number of parameters", Some(Type::Tuple(ps.iter().map(|_| Type::Int).collect::<Vec<_>>().into()))));
+                    }
+                    None => out.push(("parameter 0", None)),
+                }
+                out
+            })
+            .map_err(|c| c.sig())
+        };
+        let same = |x: &Answers, y: &Answers| -> Result<Option<String>, String> {
+            run::guarded(|| {
+                for (name, ax) in x {
+                    let ay = y.iter().find(|(n, _)| n == name).and_then(|(_, a)| a.clone());
+                    let agree = match (ax, &ay) {
+                        (None, None) => true,
+                        (Some(p), Some(q)) => p.matches(q) && q.matches(p),
+                        _ => false,
+                    };
+                    if !agree {
+                        let show = |o: &Option<Type>| o.as_ref().map(|t| Ty::from_real(t).print()).unwrap_or_else(|| "none".into());
+                        return Some(format!("{name}: {} against {}", show(ax), show(&ay)));
+                    }
+                }
+                (x.len() != y.len()).then(|| "a different number of parameters".to_string())
+            })
+            .map_err(|c| c.sig())
+        };
+        let fresh = tri!(union_real(&[a.clone(), b.clone(), c.clone()]), "type union");
+        let want = tri!(questions(&fresh), "type queries");
+        let first = tri!(union_real(&[a.clone(), b.clone()]), "type union");
+        let _ = tri!(questions(&first), "type queries");
+        let grown = tri!(run::guarded(|| first | c.clone()).map_err(|c| c.sig()), "type union");
+        let got = tri!(questions(&grown), "type queries");
+        if let Some(diff) = tri!(same(&got, &want), "matches") {
+            return fail("C10:type-with-history", format!("({ta})|({tb}) was asked about and then joined with {tc}: it differs from the union built in one go in {diff}"));
+        }
+        let mut second = tri!(union_real(&[b.clone(), a.clone()]), "type union");
+        let _ = tri!(questions(&second), "type queries");
+        let keep = second.clone();
+        tri!(run::guarded(|| second |= c.clone()).map_err(|c| c.sig()), "type union");
+        let got = tri!(questions(&second), "type queries");
+        if let Some(diff) = tri!(same(&got, &want), "matches") {
+            return fail("C10:type-with-history", format!("({tb})|({ta}) was asked about and then widened by |= {tc}: it differs from the union built in one go in {diff}"));
+        }
+        let kept = tri!(questions(&keep), "type queries");
+        let again = tri!(questions(&tri!(union_real(&[a.clone(), b.clone()]), "type union")), "type queries");
+        if let Some(diff) = tri!(same(&kept, &again), "matches") {
+            return fail("C10:type-with-history", format!("a copy of ({tb})|({ta}) taken before the original was widened differs from that union in {diff}"));
+        }
         Verdict::Pass
     }
 }
